@@ -31,10 +31,22 @@ Theorem C07_constant_roundtrip : forall k,
 Proof. exact iconst_roundtrip. Qed.
 Print Assumptions C07_constant_roundtrip.
 
-(* integers beyond +-2^53 travel as decimal strings and come back exactly *)
-Theorem C07_big_int_text : forall z, parse_int (decimal z) = Some z.
-Proof. exact decimal_roundtrip. Qed.
+(* integers beyond +-2^53 travel as strings and come back exactly: decimal text up to MAX_DECIMAL_BITS bits,
+   hexadecimal text ('0x..' / '-0x..') beyond *)
+Theorem C07_big_int_text : forall z, parse_int_text (int_text z) = Some z.
+Proof. exact int_text_roundtrip. Qed.
 Print Assumptions C07_big_int_text.
+
+(* and the decimal conversion - which CPython refuses for huge ints (sys.set_int_max_str_digits; no limit below
+   640 digits can be configured) - is only ever asked for ints of at most 617 digits, so to_json_data / from_json_data
+   cannot fail on the size of an int constant.  (Before the repair recorded as D21 the writer used str() for
+   every int: a hex literal of more than 4300 digits compiled, decoded, and made to_json_data raise.) *)
+Theorem C07_decimal_text_only_for_short_ints : forall z,
+  (bit_length z >? MAX_DECIMAL_BITS) = false -> int_text z = decimal z /\ Z.abs z < 10 ^ 617.
+Proof.
+  intros z H. split; [unfold int_text; rewrite H; reflexivity | exact (decimal_only_below_640_digits z H)].
+Qed.
+Print Assumptions C07_decimal_text_only_for_short_ints.
 
 (* the form is strict JSON: no NaN / Infinity numbers, no integer beyond +-2^53 - for every value *)
 Theorem C07_json_is_plain : forall d, json_plain (code_data_to_json d) = true.
@@ -48,8 +60,9 @@ Proof. vm_compute. reflexivity. Qed.
 
 (* the +-2^53 bounds of the model are those of the current source (Gen/Src.v, regenerated on every run) *)
 Example C07_integer_bounds_match_the_source :
-  PCD.Gen.Src.MIN_INTEGER = MIN_INTEGER /\ PCD.Gen.Src.MAX_INTEGER = MAX_INTEGER.
-Proof. split; vm_compute; reflexivity. Qed.
+  PCD.Gen.Src.MIN_INTEGER = MIN_INTEGER /\ PCD.Gen.Src.MAX_INTEGER = MAX_INTEGER /\
+  PCD.Gen.Src.MAX_DECIMAL_BITS = MAX_DECIMAL_BITS.
+Proof. repeat split; vm_compute; reflexivity. Qed.
 
 (* Schema validity.  JSON_SCHEMA below is Gen/SrcSchema.v: the dictionary code_data/__init__.py defines,
    re-translated into a Coq term on every run; validate is the JSON-Schema validator of
